@@ -179,7 +179,12 @@ INS_OPTIONS = {
                            [("ratio", 0.0), ("ratio_all", 0.0), ("ratio_ns", 0.0), ("Z_err", 0.1), ("evidence_error", 0.1), ("log_dZ", 0.1),
                             ("log_evidence", 0.1), ("ess", 1000), ("fractional_error", 0.1)]]
                           + [opt("list-any", init=dict(stopping_criterion=["ratio", "ess"], tolerance=[0.0, 1000], check_criteria="any")),
-                             opt("list-all", init=dict(stopping_criterion=["ratio", "ess"], tolerance=[0.0, 1000], check_criteria="all"))],
+                             opt("list-all", init=dict(stopping_criterion=["ratio", "ess"], tolerance=[0.0, 1000], check_criteria="all")),
+                             # two criteria in an order different from the alias table's, different tolerances, NO iteration cap:
+                             # fractional_error <= 0.5 and Z_err = exp(fractional_error) <= 2 hold after the first iteration, while
+                             # the swapped pairing Z_err <= 0.5 can never hold — the run would never end (seeded C20-c / C20-d)
+                             opt("list-order-nocap", init=dict(stopping_criterion=["fractional_error", "Z_err"], tolerance=[0.5, 2.0],
+                                                               check_criteria="all", max_iteration=None))],
     "min_samples": [opt("5", init=dict(min_samples=5)), opt("60", init=dict(min_samples=60))],
     "min_remove": [opt("10", init=dict(min_remove=10)), opt("0", init=dict(min_remove=0))],
     "max_samples": [opt("150", init=dict(max_samples=150))],
@@ -374,6 +379,10 @@ def run_one(sampler, cfg, seed, wall, fake_flows=True, budget=None):
     from harness.c03 import FakeFlows, make_model
 
     budget = budget or Budget()
+    if sampler == "ins" and cfg.get("init", {}).get("max_iteration", 0) is None:
+        # no iteration cap: the stopping rule itself has to end the run; 150 proposal draws (well over 50 levels) without
+        # meeting it is "does not terminate within a bounded number of proposal draws"
+        budget.limits["ins_draws"] = min(budget.limits["ins_draws"], 150)
     state = {"phase": "construct"}
     tmp = tempfile.mkdtemp(prefix="c20sw_")
     np.random.seed(seed)
